@@ -2452,7 +2452,34 @@ pub open spec fn is_block(s: Seq<Token>, a: int, b: int, l: int) -> bool {
     &&& s[b - 1].kind != TokenKind::Newline                        // trailing newlines are trimmed
     &&& (single_marker(s[a].kind) ==> no_newline(s, a, b))         // a `>>` / `=` line is a block of its own
     &&& exists|e: int| a < e <= b && #[trigger] first_line(s, a, e) // its first line is not blank (leading blank lines are left out)
+    &&& (single_marker(s[a].kind) ==> is_line(s, a, b))            // [C14] ... namely the whole rest of that line
+    &&& no_marker_inside(s, a, b)                                  // [C14] a `>>` / `=` line never ends up inside another block
 }
+/// no line of [a, b) other than the first starts with `>>` or `=`
+#[verifier::opaque]
+pub open spec fn no_marker_inside(s: Seq<Token>, a: int, b: int) -> bool {
+    forall|j: int| a < j < b && at_line_start(s, j) ==> !single_marker((#[trigger] s[j]).kind)
+}
+/// a stretch without newline tokens has no line start after its first token; with one more token (its newline) neither
+pub proof fn lemma_no_marker_line(s: Seq<Token>, a: int, b: int)
+    requires 0 <= a < b <= s.len(), no_newline(s, a, b - 1)
+    ensures no_marker_inside(s, a, b)
+{
+    reveal(no_marker_inside);
+    assert forall|j: int| a < j < b && at_line_start(s, j) implies !single_marker((#[trigger] s[j]).kind) by { lemma_rng_at(s, a, b - 1, j - 1); }
+}
+/// appending a line whose first token is not a marker
+pub proof fn lemma_no_marker_join(s: Seq<Token>, a: int, m: int, b: int)
+    requires 0 <= a < m < b <= s.len(), no_marker_inside(s, a, m), !single_marker(s[m].kind), no_newline(s, m, b - 1)
+    ensures no_marker_inside(s, a, b)
+{
+    reveal(no_marker_inside);
+    assert forall|j: int| a < j < b && at_line_start(s, j) implies !single_marker((#[trigger] s[j]).kind) by { if j > m { lemma_rng_at(s, m, b - 1, j - 1); } }
+}
+pub proof fn lemma_no_marker_shrink(s: Seq<Token>, a: int, b: int, c: int)
+    requires a <= c <= b, no_marker_inside(s, a, b)
+    ensures no_marker_inside(s, a, c)
+{ reveal(no_marker_inside); }
 /// [a, e) lies within one line and is not blank
 pub open spec fn first_line(s: Seq<Token>, a: int, e: int) -> bool { no_newline(s, a, e - 1) && !all_blank(s, a, e) }
 pub proof fn lemma_rng_at(s: Seq<Token>, a: int, b: int, j: int)
@@ -2540,6 +2567,8 @@ pub proof fn lemma_is_block(r0: Seq<Token>, ls: int, l0: int, end: int, l: int)
         single_marker(r0[ls].kind) ==> no_newline(r0, ls, l - 1),
         // the first line [ls, l0): not blank, no newline before its last token, and the trimmed block keeps all of it but that newline
         ls < l0 <= l, no_newline(r0, ls, l0 - 1), !all_blank(r0, ls, l0), l0 - 1 <= end,
+        single_marker(r0[ls].kind) ==> (end == r0.len() || r0[end].kind == TokenKind::Newline),
+        no_marker_inside(r0, ls, end),
     ensures is_block(r0, ls, end, l)
 {
     if end == l { lemma_rng_join(r0, ls, l - 1, l); lemma_rng_one(r0, l - 1); } else { lemma_rng_join(r0, ls, end, l - 1); }
@@ -2678,6 +2707,7 @@ after `current_line = self.pull_line()?;`#1:
             proof { ls = len0; }
 afterloop 0:
         let ghost l0 = self.blk().len() as int;     // end of the first non-blank line
+        proof { lemma_no_marker_line(r0, ls, l0); }
 after `end = self.block.len();`#0:
         proof { lemma_rng_empty(r0, end as int, end as int); }
 loop 1:
@@ -2691,20 +2721,25 @@ loop 1:
                     self.blk()[self.blk().len() - 1] == r0[self.blk().len() - 1],
                     all_blank(r0, 0, ls), ls == 0 || r0[ls - 1].kind == TokenKind::Newline,
                     !single_marker(r0[ls].kind),    // [C17] more lines are gathered only for a block that does not start with `>>` or `=`
+                    no_marker_inside(r0, ls, end as int),     // [C14] and no gathered line starts with one
                 decreases (if self.blk()[self.blk().len() - 1].kind == TokenKind::Newline { 1nat } else { 0nat }), self.fuel()
 loopbody 1:
                 let ghost len1 = self.blk().len() as int;
                 proof { lemma_line(r0, len1); }
 after `end = self.block.len();`#1:
-                proof { lemma_rng_join(r0, ls, len1, end as int); lemma_rng_empty(r0, end as int, end as int); }
+                proof { lemma_rng_join(r0, ls, len1, end as int); lemma_rng_empty(r0, end as int, end as int);
+                        lemma_no_marker_join(r0, ls, len1, end as int); }
 beforeloop 2:
+        let ghost e0 = end as int;      // end of the block before the trailing newlines are trimmed
         proof {
+            assert(single_marker(r0[ls].kind) ==> e0 == self.blk().len() && (r0[e0 - 1].kind != TokenKind::Newline ==> self.rem().len() == 0));
             lemma_rng_prefix_nl(r0, self.blk().len() as int, ls, l0 - 1);
             lemma_rng_prefix(r0, self.blk().len() as int, ls, end as int);
             lemma_rng_prefix(r0, self.blk().len() as int, end as int, self.blk().len() as int);
         }
 loop 2:
             invariant ls < end <= self.blk().len(), start == ls, ls < l0 <= self.blk().len(), l0 - 1 <= end,
+                end <= e0 <= self.blk().len(), end < e0 ==> self.blk()[end as int].kind == TokenKind::Newline,     // [C14] only newline tokens are trimmed
                 no_newline(self.blk(), ls, l0 - 1),
                 !all_blank(self.blk(), ls, end as int), all_blank(self.blk(), end as int, self.blk().len() as int),
             ensures self.blk()[end - 1].kind != TokenKind::Newline,
@@ -2722,6 +2757,8 @@ afterloop 2:
             lemma_rng_prefix(r0, self.blk().len() as int, ls, end as int);
             lemma_rng_prefix(r0, self.blk().len() as int, end as int, self.blk().len() as int);
             assert(self.blk()[end - 1] == r0[end - 1]);
+            if end < e0 { assert(self.blk()[end as int] == r0[end as int]); }
+            lemma_no_marker_shrink(r0, ls, e0, end as int);
             lemma_is_block(r0, ls, l0, end as int, self.blk().len() as int);
             lemma_sub_ok(r0, 0, self.blk().len() as int);
             lemma_sub_ok(self.blk(), start as int, end as int);
